@@ -14,6 +14,10 @@ def calculate_dominators(nodes, entry_node):
     while change:
         change = False
         for node in nodes:
+            if node is entry_node:
+                # The entry node is only dominated by itself, even when it
+                # has predecessors.
+                continue
             # A node is dominated by itself and by the intersection of
             # the dominators of its predecessors
             pred_doms = [_dom[p] for p in node.predecessors]
@@ -45,6 +49,8 @@ def calculate_post_dominators(nodes, exit_node):
     while change:
         change = False
         for node in nodes:
+            if node is exit_node:
+                continue
             # A node is post dominated by itself and by the intersection
             # of the post dominators of its successors
             succ_pdoms = [_pdom[s] for s in node.successors]
